@@ -172,8 +172,8 @@ def obligations():
 # existing entity" and record what they are given. Bounded: chunk payload <= 16 bytes, <= 2 entities per chunk.
 TOPO_STUBS = {
     TKQ + 'add_edge': '''{
-  __CPROVER_assert(_fromVertex.idx_ >= 0 && (unsigned long)_fromVertex.idx_ < g_nv && _toHandle.idx_ >= 0 && (unsigned long)_toHandle.idx_ < g_nv, "C07.read_topo_chunk.edge_endpoints_designate_existing_vertices");
-  if (rec_n < 4) { rec_a[rec_n] = _fromVertex.idx_; rec_b[rec_n] = _toHandle.idx_; } rec_n++;
+  __CPROVER_assert(_fromVertex.idx_ >= 0 && (unsigned long)_fromVertex.idx_ < g_nv && _toVertex.idx_ >= 0 && (unsigned long)_toVertex.idx_ < g_nv, "C07.read_topo_chunk.edge_endpoints_designate_existing_vertices");
+  if (rec_n < 4) { rec_a[rec_n] = _fromVertex.idx_; rec_b[rec_n] = _toVertex.idx_; } rec_n++;
   struct EH r; r.idx_ = (int)g_ne; g_ne++; return r; }''',
     TKQ + 'add_face': '''{
   for (unsigned long k = 0; k < 8; k++) if (k < _halfedges.size) __CPROVER_assert(_halfedges.data[k].idx_ >= 0 && (unsigned long)_halfedges.data[k].idx_ < 2 * g_ne, "C07.read_topo_chunk.face_halfedges_designate_existing_edges");
@@ -233,4 +233,67 @@ def obligations():
     obs.append(Ob(id='C06.suitable_int_encoding', props=['C06'], tu='ovmb', cfg='ovmb', tier='U', roots=[D + 'suitable_int_encoding', D + 'elem_size'],
                   harness='void harness(void) { unsigned int m = nondet_uint(); unsigned char e = IO_detail__suitable_int_encoding(m); unsigned char sz = IO_detail__elem_size__IO_detail_IntEncoding(e);\n  __CPROVER_assert(sz == 1 || sz == 2 || sz == 4, "C06.suitable_int_encoding.valid_encoding");\n  __CPROVER_assert(sz == 4 || (unsigned long)m < (1UL << (8 * sz)), "C06.suitable_int_encoding.every_value_up_to_max_fits_the_chosen_width");\n  __CPROVER_assert(sz == 1 || (unsigned long)m >= (1UL << (4 * sz)), "C06.suitable_int_encoding.narrowest_width_is_chosen");\n}',
                   note='suitable_int_encoding(max_value) for all 2^32 arguments: the chosen width holds max_value (255/256 and 65535/65536 boundaries) and is the narrowest'))
+    return obs
+
+# ---------------------------------------------------------------------------------------------------------------
+# C06: topology chunk round trip. The REAL BinaryFileWriter::write_edges / write_faces / write_cells (with
+# start_topo_chunk, suitable_int_encoding and the per-encoding lambdas) fill the chunk buffer from ANY well-formed mesh
+# within the caps and any span; the REAL read_topo_chunk then decodes exactly those bytes; the kernel's add_* are
+# recording stubs. Claim: the reader accepts, consumes every byte, and hands the kernel exactly the definitions of the
+# entities in the span, in order. write_chunk (chunk header + stream output) is a stub: the framing is C18's.
+BW = 'OpenVolumeMesh::IO::detail::BinaryFileWriter'
+RT_STUBS = {
+    TKQ + 'add_edge': '{ if (rec_n < 4) { rec_l[rec_n][0] = _fromVertex.idx_; rec_l[rec_n][1] = _toVertex.idx_; rec_len[rec_n] = 2; } rec_n++; struct EH r; r.idx_ = 0; return r; }',
+    TKQ + 'add_face': '{ if (rec_n < 4) { rec_len[rec_n] = (int)_halfedges.size; for (int k = 0; k < 4; k++) rec_l[rec_n][k] = (unsigned long)k < _halfedges.size ? _halfedges.data[k].idx_ : -7; } rec_n++; struct FH r; r.idx_ = 0; return r; }',
+    TKQ + 'add_cell': '{ if (rec_n < 4) { rec_len[rec_n] = (int)_halffaces.size; for (int k = 0; k < 4; k++) rec_l[rec_n][k] = (unsigned long)k < _halffaces.size ? _halffaces.data[k].idx_ : -7; } rec_n++; struct CH r; r.idx_ = 0; return r; }',
+    BW + '::write_chunk': '{ }',
+}
+RT_PRE = 'int rec_n; int rec_l[4][4]; int rec_len[4];\n'
+RT_HARNESS = '''
+void harness(void) {
+  TK m; sym_mesh(&m); __CPROVER_assume(wf(&m));
+  __CPROVER_assume(m.n_deleted_vertices_ == 0 && m.n_deleted_edges_ == 0 && m.n_deleted_faces_ == 0 && m.n_deleted_cells_ == 0);      /* the writer refuses meshes with pending deletions */
+  struct IO_detail_BinaryFileWriter w; w.mesh_ = &m; vec_uchar_init(&w.chunk_buffer_.data_); w.chunk_buffer_.pos_ = 0;
+  struct IO_detail_ArraySpan span; unsigned long total = %(TOTAL)s;
+  __CPROVER_assume(span.count >= 1 && span.first <= total && span.count <= total - span.first);
+  %(WRITE)s(&w, &span);
+  __CPROVER_assert(ovm_exc == 0, "C06.roundtrip.%(ent)s.writer_does_not_fail");
+  /* the reader, positioned where this span starts */
+  struct IO_detail_BinaryFileReader r; struct TopologyKernel out; r.mesh_ = &out; r.state_ = 5;
+  r.file_header_.n_verts = m.n_vertices_; r.file_header_.n_edges = m.edges_.size; r.file_header_.n_faces = m.faces_.size; r.file_header_.n_cells = m.cells_.size; r.file_header_.topo_type = 0;
+  r.n_verts_read_ = m.n_vertices_; r.n_edges_read_ = %(NE)s; r.n_faces_read_ = %(NF)s; r.n_cells_read_ = %(NC)s;
+  unsigned long n = w.chunk_buffer_.pos_;
+  struct IO_detail_Decoder d; d.data_.data = w.chunk_buffer_.data_.data; d.data_.size = n; d.data_.cap = n; d.cur_ = d.data_.data; d.end_ = d.data_.data + n;
+  rec_n = 0;
+  COVER(span.count == 2, "a span of two entities"); COVER_END;
+  IO_detail_BinaryFileReader__read_topo_chunk(&r, &d);
+  __CPROVER_assert(r.state_ == 5 && ovm_exc == 0, "C06.roundtrip.%(ent)s.the_reader_accepts_what_the_writer_wrote");
+  __CPROVER_assert(d.cur_ == d.end_, "C06.roundtrip.%(ent)s.every_byte_is_consumed");
+  __CPROVER_assert((unsigned long)rec_n == span.count && %(CNT)s == %(CNT0)s + span.count, "C06.roundtrip.%(ent)s.one_kernel_call_per_entity_of_the_span");
+  _Bool same = 1;
+  for (unsigned long i = 0; i < 4; i++) if (i < span.count && i < (unsigned long)rec_n) { unsigned long e = span.first + i;
+%(CMP)s }
+  __CPROVER_assert(same, "C06.roundtrip.%(ent)s.the_kernel_receives_exactly_the_definitions_of_the_span_in_order");
+}
+'''
+_base3 = obligations
+def obligations():
+    obs = _base3()
+    from obligations._mesh import caps as mcaps
+    SPEC = {
+      'edges': dict(TOTAL='m.edges_.size', WRITE='IO_detail_BinaryFileWriter__write_edges', NE='span.first', NF='0', NC='0', CNT='r.n_edges_read_', CNT0='span.first',
+                    CMP='    if (rec_len[i] != 2 || rec_l[i][0] != EFROM(&m, e) || rec_l[i][1] != ETO(&m, e)) same = 0;'),
+      'faces': dict(TOTAL='m.faces_.size', WRITE='IO_detail_BinaryFileWriter__write_faces', NE='m.edges_.size', NF='span.first', NC='0', CNT='r.n_faces_read_', CNT0='span.first',
+                    CMP='    if ((unsigned long)rec_len[i] != FVAL(&m, e)) same = 0; for (unsigned long k = 0; k < LFV; k++) if (k < FVAL(&m, e) && rec_l[i][k] != FHE(&m, e, k)) same = 0;'),
+      'cells': dict(TOTAL='m.cells_.size', WRITE='IO_detail_BinaryFileWriter__write_cells', NE='m.edges_.size', NF='m.faces_.size', NC='span.first', CNT='r.n_cells_read_', CNT0='span.first',
+                    CMP='    if ((unsigned long)rec_len[i] != CVAL(&m, e)) same = 0; for (unsigned long k = 0; k < LCV; k++) if (k < CVAL(&m, e) && rec_l[i][k] != CHF(&m, e, k)) same = 0;'),
+    }
+    for ent, sp in SPEC.items():
+        d = mcaps(v=2, e=2, f=2, c=2, fv=3, cv=3, out=2, inc=2)
+        d.update(CFG_V=0, CFG_E=0, CFG_F=0, CFG_DEFERRED=1, CFG_FAST=0, VSTD_CAP_DEFAULT=96)
+        obs.append(Ob(id='C06.roundtrip.' + ent, props=['C06', 'C18'], quick_for=[], tu='ovmb', cfg='ovmb', tier='B', roots=[BW + '::write_' + ent, BR + 'read_topo_chunk'], stubs=RT_STUBS, preamble=RT_PRE,
+                      harness=RT_HARNESS % dict(sp, ent=ent), includes=['wf.h'], defines=d,
+                      unwind=100, unwind_start=5, covers=1, timeout=3000, mem_gb=20,
+                      bounds=dict(vertices=2, edges=2, faces=2, cells=2, face_valence=3, cell_valence=3, span='any span of the mesh'),
+                      note='write_%s then read_topo_chunk on the bytes written, for any well-formed mesh within the caps without pending deletions and any span; kernel add_* record what they receive' % ent))
     return obs
